@@ -191,7 +191,10 @@ def gen_fn(rng, sym, shape=None) -> Fn:
     elif shape == "chain":
         # every argument (incl. the stack-passed ones) feeds one chain, last arguments first
         t = base_t
-        order = list(by_t.get(t, []))
+        allargs = list(by_t.get(t, []))
+        order = allargs[6:] + rng.sample(allargs[:6], min(len(allargs[:6]), rng.randint(0, 3)))  # all stack args + a few others
+        if rng.random() < 0.3:
+            order = allargs
         if rng.random() < 0.5:
             order.reverse()
         acc = order[0] if order else const(t)
@@ -314,6 +317,7 @@ def norm_as_error(stderr: str) -> str:
         mo = re.search(r"Error: (.*)", line)
         if mo:
             m = re.sub(r"[`'\"]", "", mo.group(1))
+            m = re.sub(r"(undefined symbol in generated code):.*", r"\1", m)
             m = re.sub(r"\b\d+\b", "N", m)
             msgs.append(m.strip())
     return (sorted(set(msgs)) or ["no-error-line"])[0][:70]
@@ -396,7 +400,14 @@ def stack_shift_model(fn, facts, rows, obs_list, refrun):
         margs = list(vals)
         for i in range(S):
             margs[6 + i] = post[i + 1] & ((1 << W[fn.argtypes[6 + i]]) - 1)
-        if refrun(margs) != obs["rax"] & mret:
+        if fn.shape != "replay":
+            model = fn.direct_eval(margs)   # ignores dead ops the pipeline removed (a dead division may trap in refsem)
+        else:
+            try:
+                model = refrun(margs)
+            except Exception:  # noqa: BLE001 - the model does not apply to this function
+                return False
+        if model is None or model != obs["rax"] & mret:
             return False
     return True
 
@@ -570,6 +581,7 @@ def _judge_function(fn, text, asm, rows, facts, m0, r, job, inc, sets, report, r
     inc("native_calls", len(rows))
     sets["arg_counts_executed"].add(str(len(fn.argtypes)))
     sets["shapes_executed"].add(fn.shape)
+    inc("shape_executed:" + fn.shape)
     for t in set(fn.argtypes) | ({fn.ret} if fn.ret else set()):
         sets["types_executed"].add(t)
     for p in facts["callee_saved_used"]:
@@ -673,6 +685,9 @@ def finish(agg, tier):
                          "functions_with_prologue_push": 1200, "controls_bad_flagged": 12 * 48, "controls_crash_contained": 2 * 48,
                          "controls_hang_contained": 48, "oracle_crosschecks": 160000, "void_functions_executed": 800,
                          "functions_under_memcheck": 500, "memcheck_controls_valgrind_flagged": 8}}[tier]
+    per_shape = {"dag": 60, "mixed": 40, "live": 25, "ident": 25, "reuse": 22, "const": 22, "void": 20, "chain": 12}
+    for sh, v in per_shape.items():
+        need["shape_executed:" + sh] = v if tier == "quick" else v * 25
     for k, v in need.items():
         if c.get(k, 0) < v:
             inc.append(f"{k}={c.get(k, 0)} < {v}")
